@@ -28,6 +28,10 @@ def _feed(run, vh, sub, behs, label, extra=None):
         run.sample(s)
     for f in o["failures"]:
         run.violation(f["key"], f["desc"], f["replay"])
+    if sub == "replay-timestamp":
+        run.cov["cosign_tokens_bound"] = run.cov.get("cosign_tokens_bound", 0) + o["counters"].get("cosign_bound", 0)
+        if o["counters"].get("cosign_bound", 0) != 2 and not o["failures"]:
+            raise NoVerdict(f"{label}: the cosign binding step produced {o['counters'].get('cosign_bound')} of 2 timestamped signatures")
 
 
 def run(t):
@@ -68,7 +72,7 @@ def run(t):
                        "legacy Microsoft tokens: all 8 combinations of (content, value the message digest was computed over, signature intact) x RSA/ECDSA authority "
                        "on pkcs9.VerifyMicrosoftToken.")
     run.cov["exhaustive"] = True
-    run.assumptions += ["RFC 3161 style through the PKCS#7 path; the legacy Microsoft style only at VerifyMicrosoftToken (no legacy HTTP exchange is scripted); the per-signer variants (ClickOnce, VSIX, cosign) are not replayed",
+    run.assumptions += ["RFC 3161 style through the PKCS#7 path; the legacy Microsoft style only at VerifyMicrosoftToken (no legacy HTTP exchange is scripted); of the signers that attach a timestamp in their own way, cosign is replayed against a working authority (the token must attest the decoded signature annotation); ClickOnce and VSIX are not",
                         "tokens are built by the harness's own CMS encoder; time points are 30 days apart, 'now' never coincides with a certificate boundary"]
     return run.finish()
 
